@@ -19,28 +19,31 @@ def codeByName : String → Option Code
 
 def b01 (b : Bool) : String := if b then "1" else "0"
 
+/-- a bit string argument; `-` stands for no bits at all -/
+def bitsArg (s : String) : Option Bits := if s == "-" then some [] else bitsOfString s
+
 def codesOp (op : String) (args : List String) : Option String :=
   match op, args with
   | "code.gen", [c, m] => do
     let C ← codeByName c
-    let m ← bitsOfString m
-    if m.length != C.k then some "ERR assert" else
+    let m ← bitsArg m
+    if m.length != C.k then some "ERR AssertionError" else
     some (bitsToString (C.gen m))
   | "code.check", [c, w] => do
     let C ← codeByName c
-    let w ← bitsOfString w
-    if w.length != C.n then some "ERR assert" else
+    let w ← bitsArg w
+    if w.length != C.n then some "ERR AssertionError" else
     some (b01 (C.check w))
   | "code.cac", [c, w] => do
     let C ← codeByName c
-    let w ← bitsOfString w
-    if w.length != C.n then some "ERR assert" else
+    let w ← bitsArg w
+    if w.length != C.n then some "ERR AssertionError" else
     let r := C.checkAndCorrect w
     some (b01 r.1 ++ " " ++ bitsToString r.2)
   | "code.correct", [c, w] => do
     let C ← codeByName c
-    let w ← bitsOfString w
-    if w.length != C.n then some "ERR assert" else
+    let w ← bitsArg w
+    if w.length != C.n then some "ERR AssertionError" else
     some (bitsToString (C.correct w))
   | _, _ => none
 
@@ -64,19 +67,52 @@ def storeOp (op : String) (args : List String) : Option String :=
   | "code.genS", [c, e, len, hex] => do
     let C ← codeByName c
     let (e, bs, n) ← storeArg e len hex
-    if n != C.k then some "ERR assert" else
+    if n != C.k then some "ERR AssertionError" else
     some (bitsToString (C.genStore e bs n))
   | "code.checkS", [c, e, len, hex] => do
     let C ← codeByName c
     let (e, bs, n) ← storeArg e len hex
-    if n != C.n then some "ERR assert" else
+    if n != C.n then some "ERR AssertionError" else
     some (b01 (C.checkStore e bs n))
   | "code.cacS", [c, e, len, hex] => do
     let C ← codeByName c
     let (e, bs, n) ← storeArg e len hex
-    if n != C.n then some "ERR assert" else
+    if n != C.n then some "ERR AssertionError" else
     let r := C.cacStore e bs n
     some (b01 r.1 ++ " " ++ bytesToHex' r.2)
+  | _, _ => none
+
+/-! ### the argument given as the memory of an ndarray: `<itemsize> <big|little> <offset> <stride> <len> <hex of the buffer>` -/
+
+def ndArg (sz bo off stride len hex : String) : Option (NdLayout × Bytes × Nat) := do
+  let sz ← sz.toNat?
+  let little ← endianOfString bo
+  let off ← off.toNat?
+  let stride ← stride.toNat?
+  let n ← len.toNat?
+  let bs ← if hex == "-" then some [] else hexToBytes hex
+  some (⟨sz, !little, off, stride⟩, bs, n)
+
+/-- an element that is cut off or not 0 / 1 makes `bitarray(values)` / the dot product fail -/
+def ndOut (r : Option String) : String := r.getD "ERR ValueError"
+
+def ndOp (op : String) (args : List String) : Option String :=
+  match op, args with
+  | "code.genN", [c, sz, bo, off, stride, len, hex] => do
+    let C ← codeByName c
+    let (L, bs, n) ← ndArg sz bo off stride len hex
+    if n != C.k then some "ERR AssertionError" else
+    some (ndOut ((C.genNd L bs n).map bitsToString))
+  | "code.checkN", [c, sz, bo, off, stride, len, hex] => do
+    let C ← codeByName c
+    let (L, bs, n) ← ndArg sz bo off stride len hex
+    if n != C.n then some "ERR AssertionError" else
+    some (ndOut ((C.checkNd L bs n).map b01))
+  | "code.correctN", [c, sz, bo, off, stride, len, hex] => do
+    let C ← codeByName c
+    let (L, bs, n) ← ndArg sz bo off stride len hex
+    if n != C.n then some "ERR AssertionError" else
+    some (ndOut ((C.correctNd L bs n).map bitsToString))
   | _, _ => none
 
 /-! ### histories: every result is kept as an object (`Heap`), `h.read` shows its current content -/
@@ -91,35 +127,35 @@ def histStep (h : Heap) (op : String) (args : List String) : Heap × String :=
   match op, args with
   | "h.reset", [] => (Heap.empty, "ok")
   | "h.gen", [c, m] =>
-    match codeByName c, bitsOfString m with
+    match codeByName c, bitsArg m with
     | some C, some m =>
-      if m.length != C.k then (h, "ERR assert") else
+      if !(HOp.gen C m).accepted then ((HOp.gen C m).runE h, "ERR AssertionError") else
       let r := h.size
-      let h' := (HOp.gen C m).run h
+      let h' := (HOp.gen C m).runE h
       let out := allocLine h' r ""
       (h', out)
     | _, _ => (h, "ERR bad-op " ++ op)
   | "h.check", [c, w] =>
-    match codeByName c, bitsOfString w with
+    match codeByName c, bitsArg w with
     | some C, some w =>
-      if w.length != C.n then (h, "ERR assert") else
-      ((HOp.check C w).run h, b01 (C.check w))
+      if !(HOp.check C w).accepted then ((HOp.check C w).runE h, "ERR AssertionError") else
+      ((HOp.check C w).runE h, b01 (C.check w))
     | _, _ => (h, "ERR bad-op " ++ op)
   | "h.cac", [c, w] =>
-    match codeByName c, bitsOfString w with
+    match codeByName c, bitsArg w with
     | some C, some w =>
-      if w.length != C.n then (h, "ERR assert") else
+      if !(HOp.cac C w).accepted then ((HOp.cac C w).runE h, "ERR AssertionError") else
       let r := h.size
-      let h' := (HOp.cac C w).run h
+      let h' := (HOp.cac C w).runE h
       let out := allocLine h' r (b01 (C.checkAndCorrect w).1 ++ " ")
       (h', out)
     | _, _ => (h, "ERR bad-op " ++ op)
   | "h.correct", [c, w] =>
-    match codeByName c, bitsOfString w with
+    match codeByName c, bitsArg w with
     | some C, some w =>
-      if w.length != C.n then (h, "ERR assert") else
+      if !(HOp.correct C w).accepted then ((HOp.correct C w).runE h, "ERR AssertionError") else
       let r := h.size
-      let h' := (HOp.correct C w).run h
+      let h' := (HOp.correct C w).runE h
       let out := allocLine h' r ""
       (h', out)
     | _, _ => (h, "ERR bad-op " ++ op)
@@ -136,7 +172,7 @@ def histStep (h : Heap) (op : String) (args : List String) : Heap × String :=
       | none => (h, "ERR ref")
     | none => (h, "ERR bad-op " ++ op)
   | _, _ =>
-    match [codesOp, storeOp].findSome? (fun f => f op args) with
+    match [codesOp, storeOp, ndOp].findSome? (fun f => f op args) with
     | some out => (h, out)
     | none => (h, "ERR bad-op " ++ op)
 
